@@ -83,6 +83,55 @@ def dump_tree(root, toks):
     return ''.join(out)
 
 
+def walk_check(root):
+    """The tree as a walker with only the library's default node handlers sees it (what build's RequireWalker and every
+    other BaseASTWalker subclass without a handler of its own for a node class get): -> None when it reaches exactly the
+    nodes of the tree, each once, in source (pre-)order; otherwise a short description of the first difference."""
+    from pico8.lua import lua, parser
+    want = []
+
+    def rec(v):
+        if isinstance(v, parser.Node):
+            want.append(v)
+            for f in v._fields:
+                rec(getattr(v, f))
+        elif isinstance(v, (list, tuple)):
+            for x in v:
+                rec(x)
+    rec(root)
+    seen = []
+    ns = {}
+    for name in dir(parser):
+        cls = getattr(parser, name)
+        if isinstance(cls, type) and issubclass(cls, parser.Node):
+            name = cls.__name__
+            base = getattr(lua.BaseASTWalker, '_walk_' + name, None)
+            if base is None:
+                return 'no default handler for node class %s' % name
+
+            def h(self, node, _base=base):
+                seen.append(node)
+                for t in _base(self, node):
+                    yield t
+            ns['_walk_' + name] = h
+    W = type('PlainWalker', (lua.BaseASTWalker,), ns)
+    try:
+        for _ in W([], root).walk():
+            pass
+    except RecursionError:
+        return None
+    except Exception as e:  # noqa
+        return 'the plain walker raised %s' % lib.exc_name(e)
+    if len(seen) != len(want) or any(a is not b for a, b in zip(seen, want)):
+        k = 0
+        while k < len(seen) and k < len(want) and seen[k] is want[k]:
+            k += 1
+        nxt = type(want[k]).__name__ if k < len(want) else 'nothing'
+        got = type(seen[k]).__name__ if k < len(seen) else 'nothing'
+        return 'plain walker reaches %d of %d nodes; node %d should be a %s, it visits %s' % (len(seen), len(want), k, nxt, got)
+    return None
+
+
 class _Reused:
     """what a parser object that has been used before exposes for the token list it is given now"""
 
